@@ -67,3 +67,115 @@ theorem failedOf_idxs {φ} (results : List (List Nat × BrokerResult φ)) :
       simp [Function.comp_def, ih]
 
 end Afkak.ClientCache
+
+namespace Afkak.ClientCache
+
+/-- the hypothesis of the accounting law for one successful broker request: it answers exactly the
+    partitions it was asked -/
+def AnswersAsked (keys : List TP) (idxs : List Nat) (rs : List Resp) : Prop :=
+  (∀ r ∈ rs, ∃ i ∈ idxs, keys[i]? = some r.key) ∧ (∀ i ∈ idxs, ∀ k, keys[i]? = some k → ∃ r ∈ rs, r.key = k)
+
+theorem mem_accOf {φ} {results : List (List Nat × BrokerResult φ)} {r : Resp} :
+    r ∈ accOf results ↔ ∃ idxs rs, (idxs, BrokerResult.ok rs) ∈ results ∧ r ∈ rs := by
+  simp only [accOf, List.mem_flatMap]
+  constructor
+  · rintro ⟨⟨idxs, res⟩, hm, hr⟩
+    cases res with
+    | ok rs => exact ⟨idxs, rs, hm, hr⟩
+    | fail f => cases hr
+  · rintro ⟨idxs, rs, hm, hr⟩
+    exact ⟨(idxs, .ok rs), hm, hr⟩
+
+theorem mem_failedIdxs {φ} {results : List (List Nat × BrokerResult φ)} {i : Nat} :
+    i ∈ (failedOf results).map (·.1) ↔ ∃ idxs f, (idxs, BrokerResult.fail f) ∈ results ∧ i ∈ idxs := by
+  simp only [failedOf, List.mem_map, List.mem_flatMap]
+  constructor
+  · rintro ⟨⟨i', f'⟩, ⟨⟨idxs, res⟩, hm, hr⟩, rfl⟩
+    cases res with
+    | ok rs => cases hr
+    | fail f =>
+      simp only [List.mem_map] at hr
+      obtain ⟨j, hj, hje⟩ := hr
+      cases hje
+      exact ⟨idxs, _, hm, hj⟩
+  · rintro ⟨idxs, f, hm, hi⟩
+    exact ⟨(i, f), ⟨(idxs, .fail f), hm, List.mem_map.mpr ⟨i, hi, rfl⟩⟩, rfl⟩
+
+/-- an index cannot be in two different requests when the requests partition the payloads -/
+theorem unique_request {φ} : ∀ {results : List (List Nat × BrokerResult φ)} {a b : List Nat × BrokerResult φ} {i : Nat},
+    (results.flatMap (·.1)).Nodup → a ∈ results → b ∈ results → i ∈ a.1 → i ∈ b.1 → a.2 = b.2 ∨ a = b
+  | [], _, _, _, _, ha, _, _, _ => by cases ha
+  | x :: l, a, b, i, hnd, ha, hb, hia, hib => by
+    simp only [List.flatMap_cons, List.nodup_append] at hnd
+    obtain ⟨_, hl, hdisj⟩ := hnd
+    rcases List.mem_cons.mp ha with rfl | ha' <;> rcases List.mem_cons.mp hb with rfl | hb'
+    · right; rfl
+    · exact absurd rfl (hdisj i hia i (List.mem_flatMap.mpr ⟨b, hb', hib⟩))
+    · exact absurd rfl (hdisj i hib i (List.mem_flatMap.mpr ⟨a, ha', hia⟩))
+    · exact unique_request hl ha' hb' hia hib
+
+/-- C07 accounting: with distinct payload keys, requests that partition the payload list and brokers
+    that answer exactly what they were asked, every payload is either answered (its key has a
+    response) or listed among the failed payloads — never both, never neither. -/
+theorem accounting {φ} (keys : List TP) (results : List (List Nat × BrokerResult φ))
+    (hkeys : keys.Nodup)
+    (hnd : (results.flatMap (·.1)).Nodup)
+    (hcover : ∀ i, i < keys.length → i ∈ results.flatMap (·.1))
+    (hans : ∀ idxs rs, (idxs, BrokerResult.ok rs) ∈ results → AnswersAsked keys idxs rs)
+    (i : Nat) (hi : i < keys.length) :
+    (i ∈ (failedOf results).map (·.1) ↔ ¬ (accOf results).any (fun r => r.key == keys[i]) = true) := by
+  obtain ⟨req, hreq, hireq⟩ := List.mem_flatMap.mp (hcover i hi)
+  obtain ⟨idxs, res⟩ := req
+  constructor
+  · intro hf hany
+    obtain ⟨idxsF, f, hmF, hiF⟩ := mem_failedIdxs.mp hf
+    obtain ⟨r, hr, hrk⟩ := List.any_eq_true.mp hany
+    obtain ⟨idxsO, rs, hmO, hrO⟩ := mem_accOf.mp hr
+    obtain ⟨i', hi', hk'⟩ := (hans idxsO rs hmO).1 r hrO
+    have hrk' : r.key = keys[i] := by simpa using hrk
+    have hlt : i' < keys.length := by
+      rcases Nat.lt_or_ge i' keys.length with h | h
+      · exact h
+      · rw [List.getElem?_eq_none h] at hk'; cases hk'
+    rw [List.getElem?_eq_getElem hlt, Option.some.injEq, hrk'] at hk'
+    have hii : i' = i := by
+      by_cases hne : i' = i
+      · exact hne
+      · exfalso
+        rcases Nat.lt_or_gt_of_ne hne with hlt' | hlt'
+        · exact (List.pairwise_iff_getElem.mp hkeys i' i hlt hi hlt') hk'
+        · exact (List.pairwise_iff_getElem.mp hkeys i i' hi hlt hlt') hk'.symm
+    subst hii
+    rcases unique_request hnd hmF hmO hiF hi' with h | h
+    · cases h
+    · cases h
+  · intro hnot
+    cases res with
+    | fail f => exact mem_failedIdxs.mpr ⟨idxs, f, hreq, hireq⟩
+    | ok rs =>
+      exfalso
+      apply hnot
+      obtain ⟨r, hr, hrk⟩ := (hans idxs rs hreq).2 i hireq keys[i] (List.getElem?_eq_getElem hi)
+      exact List.any_eq_true.mpr ⟨r, mem_accOf.mpr ⟨idxs, rs, hreq, hr⟩, by simp [hrk]⟩
+
+/-- the failed payloads are listed without duplicates when the requests partition the payloads -/
+theorem failed_nodup {φ} (results : List (List Nat × BrokerResult φ)) (hnd : (results.flatMap (·.1)).Nodup) :
+    ((failedOf results).map (·.1)).Nodup := by
+  rw [failedOf_idxs]
+  induction results with
+  | nil => simp
+  | cons x l ih =>
+    simp only [List.flatMap_cons, List.nodup_append] at hnd
+    obtain ⟨hx, hl, hdisj⟩ := hnd
+    obtain ⟨idxs, res⟩ := x
+    cases res with
+    | ok rs => simpa [List.filter_cons] using ih hl
+    | fail f =>
+      simp only [List.filter_cons, if_true, List.flatMap_cons, List.nodup_append]
+      refine ⟨hx, ih hl, ?_⟩
+      intro a ha b hb
+      apply hdisj a ha b
+      obtain ⟨y, hy, hby⟩ := List.mem_flatMap.mp hb
+      exact List.mem_flatMap.mpr ⟨y, (List.mem_filter.mp hy).1, hby⟩
+
+end Afkak.ClientCache
